@@ -35,8 +35,8 @@ HEADER = ("From Coq Require Import List Arith Bool. Import ListNotations.\nFrom 
           "&& forallb (fun q => Nat.eqb (fst q) (snd q)) (combine (fst p) (snd p))) (combine a b).\n"
           "Definition leq (a b : list nat) : bool := Nat.eqb (length a) (length b) && forallb (fun q => Nat.eqb (fst q) (snd q)) (combine a b).\n")
 
-KINDS = {"cel": 2, "spec": 1, "time": 1, "stokes": 1, "gen": 1, "spec2": 1}
-VALUE = {"lon": 52.0, "lat": 11.0, "spec": 7.0, "spec2": 3.0, "time": 100.0, "stokes": 2.0, "gen": 5.0}
+KINDS = {"cel": 2, "spec": 1, "time": 1, "stokes": 1, "gen": 1, "spec2": 1, "spec3": 1}
+VALUE = {"lon": 52.0, "lat": 11.0, "spec": 7.0, "spec2": 3.0, "spec3": 4.5, "time": 100.0, "stokes": 2.0, "gen": 5.0}
 
 
 def make_sub(kind, axes, idx):
@@ -47,8 +47,8 @@ def make_sub(kind, axes, idx):
     if kind == "cel":
         rf = [coord.ICRS(), coord.FK5(), coord.Galactic()][idx % 3]
         return cf.CelestialFrame(reference_frame=rf, axes_order=tuple(axes), unit=(u.deg, u.deg), name=f"sky{idx}")
-    if kind in ("spec", "spec2"):
-        return cf.SpectralFrame(axes_order=tuple(axes), unit=(u.um,) if kind == "spec" else (u.Hz,), name=f"{kind}{idx}")
+    if kind in ("spec", "spec2", "spec3"):
+        return cf.SpectralFrame(axes_order=tuple(axes), unit={"spec": (u.um,), "spec2": (u.Hz,), "spec3": (u.J,)}[kind], name=f"{kind}{idx}")
     if kind == "time":
         return cf.TemporalFrame(Time("2020-01-01T00:00:00"), axes_order=tuple(axes), unit=(u.s,), name=f"time{idx}")
     if kind == "stokes":
@@ -65,7 +65,7 @@ def object_values(kind, obj, sub):
     import astropy.units as u
     if kind == "cel":
         return [float(obj.spherical.lon.deg), float(obj.spherical.lat.deg)]
-    if kind in ("spec", "spec2"):
+    if kind in ("spec", "spec2", "spec3"):
         return [float(obj.to_value(sub.unit[0]))]
     if kind == "time":
         return [float((obj - sub.reference_frame).sec)]
@@ -76,7 +76,8 @@ def object_values(kind, obj, sub):
 
 def layouts(quick):
     combos = [["cel"], ["cel", "spec"], ["spec", "time"], ["cel", "spec", "time"], ["spec", "time", "stokes"], ["spec", "spec2"],
-              ["cel", "gen"], ["gen", "spec", "time", "stokes"], ["cel", "stokes", "spec"], ["cel", "cel"]]
+              ["cel", "gen"], ["gen", "spec", "time", "stokes"], ["cel", "stokes", "spec"], ["cel", "cel"],
+              ["spec", "spec2", "spec3"], ["spec", "spec2", "spec3", "time"]]     # three sub-frames of one kind: object keys spectral, spectral1, spectral2
     for kinds in combos:
         n = sum(KINDS[k] for k in kinds)
         if n > 4:
@@ -154,9 +155,9 @@ def run(ctx):
                 key, slot = comps[i][0], comps[i][1]
                 fidx = None
                 for j, (k, sub) in enumerate(zip(kinds, subs)):
-                    base = {"cel": "celestial", "spec": "spectral", "spec2": "spectral", "time": "temporal", "stokes": "stokes", "gen": "SPATIAL"}[k]
+                    base = {"cel": "celestial", "spec": "spectral", "spec2": "spectral", "spec3": "spectral", "time": "temporal", "stokes": "stokes", "gen": "SPATIAL"}[k]
                     if key.startswith(base):
-                        cand = [jj for jj, kk in enumerate(kinds) if {"cel": "celestial", "spec": "spectral", "spec2": "spectral", "time": "temporal",
+                        cand = [jj for jj, kk in enumerate(kinds) if {"cel": "celestial", "spec": "spectral", "spec2": "spectral", "spec3": "spectral", "time": "temporal",
                                                                       "stokes": "stokes", "gen": "SPATIAL"}[kk] == base]
                         suffix = key[len(base):]
                         fidx = cand[int(suffix) if suffix else 0] if (int(suffix) if suffix else 0) < len(cand) else None
@@ -206,7 +207,7 @@ def run(ctx):
                 gobjs = gobjs if isinstance(gobjs, (list, tuple)) else [gobjs]
                 # the generic wrapper lists objects in order of first appearance along the world axes: compare kind for kind
                 def sig(k, o, sub):
-                    return (k if k != "spec2" else "spec", tuple(round(v, 9) for v in object_values(k, o, sub)), type(o).__name__)
+                    return (k if k not in ("spec2", "spec3") else "spec", tuple(round(v, 9) for v in object_values(k, o, sub)), type(o).__name__)
                 mine = sorted(sig(k, o, sub) for k, sub, o in zip(kinds, subs, objs))
                 order = sorted(range(len(kinds)), key=lambda j: min(axes[j]))
                 theirs = sorted(sig(kinds[j], o, subs[j]) for j, o in zip(order, gobjs))
